@@ -100,7 +100,8 @@ class ErrorHandling:
 
         expected = {}  # value: token
 
-        for token_name in self.expected_tokens:
+        # sorted: the parser hands the names over in the order of a hashed container, which differs from process to process
+        for token_name in sorted(self.expected_tokens):
             value = getattr(self.lexer, token_name, None)
             if token_name == 'ID':
                 # a lot of other tokens could be ID
